@@ -59,7 +59,7 @@ theorem mem_rset_union {st st' : St} {T1 T2 : Ty} (h : union st T1 T2 = .ok st')
       · exact h1
       · simp [List.getElem?_eq_none h1] at hu
     cases hrk : st.reach[k]? with
-    | none => simp [List.getElem?_eq_none_iff] at hrk; omega
+    | none => simp at hrk; omega
     | some r =>
       simp only [Option.getD_some, touched, rset, List.getD_eq_getElem?_getD, hrk, hu, Option.some.injEq]
       by_cases hc : U = T1
